@@ -216,5 +216,6 @@ class RefLexer:
                     item = 'err %s custom %d' % (show_loc(locs[start1]), idx + 100)
                 start = endp
                 break
-            lines.append('N %s | S %s %s %d | U %d | %s' % (item, rs, rs, 1 if done else 0, counter, ' ; '.join(log)))
+            saved = '0' if n <= 64 else '-'   # no saved match survives a call
+            lines.append('N %s | S %s %s %d %s | U %d | %s' % (item, rs, rs, 1 if done else 0, saved, counter, ' ; '.join(log)))
         return lines
